@@ -1,9 +1,35 @@
-# C06 -- PUSH/PULL: each message to at most one puller, none lost while connected (DESIGN 5/C06)
+# C06 -- PUSH/PULL: each message to at most one puller, none lost while connected, per-connection send order,
+# back-pressure (DESIGN 5/C06, 11.8: the order law is over SUBMISSION order)
 import random
 from protolib import *
 
+KEY_RESIZE = "push-resize-overtakes-blocked"
+KNOWN_TEXT = {
+    KEY_RESIZE: "push.c push0_set_send_buf_len leaves blocked senders on the wait list when NNG_OPT_SENDBUF grows: a later send is buffered "
+                "ahead of them and one connection carries the messages out of send order (sends 1 2 [blocked], SENDBUF:=2, send 3 => wire 3 1 2; "
+                "findings/c06/push-resize-overtakes-blocked.txt; PushSubmit.push_submission_order_refuted_pinned is this run)",
+}
+FOUND = []          # (key, case, op index, text)
+PUSH, PULL = 80, 81
+WRONG_PEERS = [80, 48, 49, 16, 17, 32, 33, 98, 99, 112, 0, 65535]    # anything but PULL (81)
 
+NEED = ["push_conservation_step", "push_conservation", "push_per_pipe_fifo", "push_blocks_when_full", "push_nonblocking_send",
+        "pull_conservation_step", "pull_conservation", "pushpull_conservation", "push_guard_is_push_step_r",
+        "push_repaired_resize_keeps_laws", "push_closed_pipe_never_ready", "push_current_source_guarded",
+        "push_submission_order_step", "push_submission_order", "push_per_connection_send_order",
+        "push_cancel_removes_exactly_that_message", "push_submission_order_pinned_resize_refuted",
+        "push_submission_order_repaired_on_witness", "push_rejected_pipe_takes_nothing", "push_source_shape"]
+
+
+def consts():
+    txt = open(os.path.join(COQ, "Gen", "Consts.v")).read()
+    m = re.search(r"Definition C06_PUSH_RESIZE_ADMITS_FIXED : bool := (\w+)\.", txt)
+    return {"resize_fixed": (m.group(1) == "true") if m else None}
+
+
+# ------------------------------------------------------------------ generators
 def gen_push_case(rng):
+    """random history on a PUSH socket (also used by checks/c03.py)"""
     lines = ["open s0 push0%s" % ("_raw" if rng.random() < 0.15 else "")]
     npipes, naio, nmsg = 0, 0, 0
     if rng.random() < 0.5:
@@ -38,6 +64,122 @@ def gen_push_case(rng):
     return lines
 
 
+def _drain(lines, npipes, rounds):
+    for _ in range(rounds):
+        for p in range(npipes):
+            lines.append("sent p%d" % p)
+
+
+def gen_blocked_case(rng):
+    """2..5 senders blocked at the same time (SENDBUF 0/1/2, set before any send and never changed), some of them
+    cancelled or timed out, then pullers arriving one at a time and transport acknowledgements one at a time, with
+    further sends in between.  No connection is lost, nothing is resized: every message whose send succeeds must
+    come out, and every connection must carry its messages in the order the sends were SUBMITTED."""
+    lines = ["open s0 push0%s" % ("_raw" if rng.random() < 0.1 else "")]
+    cap = rng.choice([0, 0, 1, 1, 2])
+    if cap or rng.random() < 0.3:
+        lines.append("setopt s0 send-buffer int %d" % cap)
+    st = {"naio": 0, "nmsg": 0, "blocked": [], "npipes": 0}
+
+    def send(blocking=True, tmo=False):
+        st["nmsg"] += 1
+        if blocking and st["naio"] < 60:
+            a = st["naio"]; st["naio"] += 1
+            if tmo:
+                lines.append("aiotmo a%d %d" % (a, rng.choice([100, 250, 1000])))
+            lines.append("send s0 a%d - %04x" % (a, st["nmsg"]))
+            st["blocked"].append(a)
+        else:
+            lines.append("sendnb s0 - %04x" % st["nmsg"])
+
+    for _ in range(cap):                              # fill the buffer
+        send(blocking=rng.random() < 0.5)
+    k = rng.randrange(2, 6)
+    timed = rng.random() < 0.3
+    for j in range(k):                                # k senders block
+        send(True, tmo=timed and rng.random() < 0.4)
+        if rng.random() < 0.15:
+            lines.append("sendnb s0 - %04x" % (0x8000 + st["nmsg"]))     # refused on the spot: NNG_EAGAIN, never entered
+    for _ in range(rng.choice([0, 0, 1, 1, 2])):      # some give up
+        if st["blocked"]:
+            lines.append("cancel a%d" % rng.choice(st["blocked"]))
+    if timed:
+        lines.append("advance %d" % rng.choice([2100, 5000]))
+    # pullers arrive one at a time; acknowledgements one at a time; later submissions in between
+    for _ in range(rng.randrange(4, 22)):
+        r = rng.random()
+        if (r < 0.22 and st["npipes"] < 3) or st["npipes"] == 0:
+            lines.append("conn s0 81"); st["npipes"] += 1
+        elif r < 0.62:
+            lines.append("sent p%d" % rng.randrange(st["npipes"]))
+        elif r < 0.80:
+            send(True)
+        elif r < 0.88:
+            send(False)
+        elif r < 0.94 and st["blocked"]:
+            lines.append("cancel a%d" % rng.choice(st["blocked"]))
+        else:
+            lines.append("poll")
+    if st["npipes"] == 0 or rng.random() < 0.3:
+        lines.append("conn s0 81"); st["npipes"] += 1
+    _drain(lines, st["npipes"], 12 + st["nmsg"] // max(1, st["npipes"]))
+    return lines
+
+
+def gen_reject_case(rng):
+    """buffered and blocked messages, then one or more peers of the WRONG protocol (refused by push0_pipe_start), then
+    a real puller: a refused connection was never valid, so it must not take (and lose) a message -- all of them come
+    out on the puller, in order."""
+    lines = ["open s0 push0%s" % ("_raw" if rng.random() < 0.1 else "")]
+    cap = rng.choice([0, 1, 2, 3, 4])
+    if cap or rng.random() < 0.3:
+        lines.append("setopt s0 send-buffer int %d" % cap)
+    naio, nmsg, npipes, nref = 0, 0, 0, 0
+    for _ in range(cap):
+        nmsg += 1
+        if rng.random() < 0.6:
+            lines.append("sendnb s0 - %04x" % nmsg)
+        else:
+            lines.append("send s0 a%d - %04x" % (naio, nmsg)); naio += 1
+    for _ in range(rng.randrange(0 if cap else 1, 4)):
+        nmsg += 1; lines.append("send s0 a%d - %04x" % (naio, nmsg)); naio += 1
+    for _ in range(rng.randrange(1, 5)):
+        lines.append("conn s0 %d" % rng.choice(WRONG_PEERS)); npipes += 1
+        if rng.random() < 0.3:
+            nmsg += 1; lines.append("send s0 a%d - %04x" % (naio, nmsg)); naio += 1
+        if rng.random() < 0.2:
+            nref += 1; lines.append("sendnb s0 - %04x" % (0x8000 + nref))     # buffer full, no puller: NNG_EAGAIN
+    good = []
+    for _ in range(rng.choice([1, 1, 2])):
+        lines.append("conn s0 81"); good.append(npipes); npipes += 1
+        if rng.random() < 0.3:
+            lines.append("conn s0 %d" % rng.choice(WRONG_PEERS)); npipes += 1
+    for _ in range(nmsg + 3):
+        for p in good:
+            lines.append("sent p%d" % p)
+    return lines
+
+
+# the run of PushSubmit.resize_witness / its SENDBUF-1 form (the known finding until push.c is repaired; the
+# repaired text must give 1 2 3 / 1 2 3 4) and the schedules of the two round-2 seeded changes
+DIRECTED = [
+    ["open s0 push0", "send s0 a0 - 0001", "send s0 a1 - 0002", "setopt s0 send-buffer int 2", "send s0 a2 - 0003",
+     "conn s0 81", "sent p0", "sent p0", "sent p0", "sent p0"],
+    ["open s0 push0", "setopt s0 send-buffer int 1", "send s0 a0 - 0001", "send s0 a1 - 0002", "send s0 a2 - 0003",
+     "setopt s0 send-buffer int 3", "send s0 a3 - 0004", "conn s0 81", "sent p0", "sent p0", "sent p0", "sent p0", "sent p0"],
+    ["open s0 push0", "send s0 a0 - 0001", "send s0 a1 - 0002", "send s0 a2 - 0003", "send s0 a3 - 0004",
+     "conn s0 81", "sent p0", "sent p0", "sent p0", "sent p0", "sent p0"],
+    ["open s0 push0", "setopt s0 send-buffer int 1", "send s0 a0 - 0001", "send s0 a1 - 0002", "send s0 a2 - 0003", "send s0 a3 - 0004",
+     "conn s0 81", "sent p0", "sent p0", "sent p0", "sent p0", "sent p0"],
+    ["open s0 push0", "setopt s0 send-buffer int 1", "send s0 a0 - 0001", "send s0 a1 - 0002", "send s0 a2 - 0003", "send s0 a3 - 0004",
+     "cancel a2", "conn s0 81", "sent p0", "sent p0", "sent p0", "sent p0"],
+    ["open s0 push0", "setopt s0 send-buffer int 4", "sendnb s0 - 0001", "sendnb s0 - 0002", "sendnb s0 - 0003",
+     "conn s0 80", "conn s0 80", "conn s0 49", "conn s0 81", "sent p3", "sent p3", "sent p3", "sent p3"],
+    ["open s0 push0", "setopt s0 send-buffer int 2", "sendnb s0 - 0001", "sendnb s0 - 0002", "send s0 a0 - 0003",
+     "conn s0 80", "conn s0 80", "conn s0 81", "sent p2", "sent p2", "sent p2", "sent p2"],
+]
+
+
 def gen_pull_case(rng):
     lines = ["open s0 pull0%s" % ("_raw" if rng.random() < 0.15 else "")]
     npipes, naio, nmsg = 0, 0, 0
@@ -66,130 +208,213 @@ def gen_pull_case(rng):
     return lines
 
 
+# ------------------------------------------------------------------ spec oracle
+def oracle_push(case, obs):
+    """C06 for a PUSH socket, on the implementation's own observations.
+    send order = SUBMISSION order: the order of the `send` / `sendnb` lines (a send refused on the spot -- NNG_EAGAIN --
+    or failed later -- cancelled, timed out, socket closed -- left its message with the caller and does not count)."""
+    sub_line = {}            # body -> index of the line that submitted it (its place in submission order)
+    pending_aio = {}         # aio -> body of a blocking send not yet completed
+    accepted = []            # bodies whose send completed with success, in acceptance (= buffer) order
+    refused = set()          # bodies whose send failed: never to be transmitted
+    seen_tx = {}             # body -> pipe it was handed to
+    cur_tx = {}              # pipe -> body pending on the transport
+    tx_order = {}            # pipe -> bodies in hand-over order
+    valid = {}               # pipe -> the peer is a PULL socket
+    lost_ok = set()          # bodies that may be lost: their connection went down with them, the buffer was shrunk over
+                             # them, or the socket was closed
+    grows = []               # (line, bodies blocked at that line) for every NNG_OPT_SENDBUF increase
+    cap = 0                  # NNG_OPT_SENDBUF (push0_sock_init: unbuffered)
+    closed = False
+    resize_hits = []
+    for k, line in enumerate(case):
+        t = line.split()
+        o = obs[k] if k < len(obs) else None
+        if o is None:
+            return (k, "no observation")
+        if closed:
+            continue
+        if t[0] == "sendnb":
+            body = t[3]
+            if o["rv"] == 0:
+                sub_line[body] = k; accepted.append(body)
+            elif o["rv"] in (8, 7, 5):
+                refused.add(body)
+            else:
+                return (k, "unexpected result %d of a non-blocking send" % o["rv"])
+        elif t[0] == "send" and o["rv"] == 0:
+            pending_aio[int(t[2][1:])] = t[4]; sub_line[t[4]] = k
+        elif t[0] == "conn" and o["newpipe"] is not None:
+            valid[o["newpipe"]] = (int(t[2]) == PULL)
+        elif t[0] == "drop" or (t[0] == "sent" and len(t) > 2 and int(t[2]) != 0):
+            # the connection goes down: the message it was carrying may be lost with it (the property's exemption)
+            b = cur_tx.get(int(t[1][1:]))
+            if b is not None and o["rv"] == 0:
+                lost_ok.add(b)
+        elif t[0] == "setopt" and t[2] == "send-buffer" and o["rv"] == 0:
+            n = int(t[4])
+            buffered = [b for b in accepted if b not in seen_tx and b not in lost_ok]
+            if n < len(buffered):
+                # documented lossy resize, OUTSIDE the property: nni_lmq_resize keeps the oldest n messages and frees the
+                # excess (push_test test_push_send_buffer expects it; DESIGN 5/C06 "explicit buffer shrink"; stated in the
+                # theorems as sub_loss / freed).  Exactly the excess is excused, nothing else.
+                lost_ok.update(buffered[n:])
+            if n > cap and pending_aio:
+                grows.append((k, set(pending_aio.values())))
+            cap = n
+        elif t[0] == "close":
+            closed = True
+        done_now = []
+        for a, rv, extra in o["done"]:
+            if a in pending_aio:
+                b = pending_aio.pop(a)
+                if rv == 0:
+                    done_now.append(b)
+                else:
+                    refused.add(b)
+                    if extra != "kept":
+                        return (k, "failed send (rv=%d) did not leave the message with the caller" % rv)
+        accepted += sorted(done_now, key=lambda b: sub_line[b])
+        if closed:
+            continue
+        for i, p in o["pipes"].items():
+            tx = p.get("tx")
+            b = tx.split("/")[1] if tx else None
+            if p.get("nt", 0) > 1:
+                return (k, "more than one transport send pending on a pipe")
+            if b != cur_tx.get(i):
+                if b is not None:
+                    if b in seen_tx:
+                        return (k, "message %s handed to the transport twice (pipes %s and %d)" % (b, seen_tx[b], i))
+                    if b in refused:
+                        return (k, "message %s was refused to the caller but transmitted anyway" % b)
+                    if b not in sub_line:
+                        return (k, "message %s transmitted but never sent by the application" % b)
+                    if not valid.get(i, True):
+                        return (k, "message %s handed to connection p%d whose peer is not a PULL socket (the protocol refuses it)" % (b, i))
+                    # per-connection send order: nothing submitted later may have gone out on this connection before
+                    for x in tx_order.get(i, []):
+                        if sub_line[x] > sub_line[b]:
+                            # the unrepaired push0_set_send_buf_len: x was submitted after a buffer increase during which
+                            # b's sender was blocked (known finding; reported under its key, everything else is not excused)
+                            if any(sub_line[x] > gk and b in blk for gk, blk in grows):
+                                resize_hits.append((k, "connection p%d carries %s (sent after the buffer grew) before %s (blocked at that time)" % (i, x, b)))
+                            else:
+                                return (k, "connection p%d carries message %s before %s although %s was sent first (send order = order of submission)" % (i, x, b, b))
+                    seen_tx[b] = i
+                    tx_order.setdefault(i, []).append(b)
+                cur_tx[i] = b
+    if resize_hits:
+        FOUND.append((KEY_RESIZE, case, resize_hits[0][0], resize_hits[0][1]))
+    if not closed:
+        # a ready puller (connection up, its transport idle) and still something accepted that never went out: with a
+        # pipe on the ready list the buffer is empty, so the message is gone.  Connections that went down with a message,
+        # the excess of a shrink and the socket close are excused above; a connection the protocol REFUSED (wrong peer
+        # protocol) was never up and excuses nothing.
+        last = obs[len(case) - 1] if len(obs) >= len(case) else None
+        if last and any(p.get("st") == "o" and p.get("nt") == 0 and valid.get(i, True) for i, p in last["pipes"].items()):
+            missing = [b for b in accepted if b not in seen_tx and b not in lost_ok]
+            if missing:
+                return (len(case) - 1, "accepted messages %s never reached any puller although a puller is connected and idle and no "
+                        "connection carrying them went down" % missing[:4])
+    return None
+
+
+def oracle_pull(case, obs):
+    injected = {}            # pipe -> [bodies in order]
+    delivered = []           # (body)
+    lost_ok = set()
+    for k, line in enumerate(case):
+        t = line.split()
+        o = obs[k] if k < len(obs) else None
+        if o is None:
+            return (k, "no observation")
+        if t[0] == "inject" and o["rv"] == 0:
+            injected.setdefault(int(t[1][1:]), []).append(t[2])
+        if t[0] in ("drop", "close"):
+            # messages not yet delivered on that pipe may be lost with the connection
+            for i, seq in injected.items():
+                if t[0] == "close" or i == int(t[1][1:]):
+                    lost_ok.update(seq)
+        got = []
+        if o["got"]:
+            got.append(o["got"].split("/")[1])
+        for a, rv, extra in o["done"]:
+            if rv == 0 and extra:
+                got.append(extra.split("/")[1])
+        for b in got:
+            if b in delivered:
+                return (k, "message %s delivered twice" % b)
+            if not any(b in seq for seq in injected.values()):
+                return (k, "message %s delivered but never sent by a pusher" % b)
+            delivered.append(b)
+    for i, seq in injected.items():
+        pos = [seq.index(b) for b in delivered if b in seq]
+        if pos != sorted(pos):
+            return (len(case) - 1, "messages of connection %d delivered out of order" % i)
+        # no gaps: a delivered message implies all earlier ones of that pipe were delivered
+        d = [b for b in seq if b in delivered]
+        if d and seq[:len(d)] != d:
+            return (len(case) - 1, "connection %d: a message was skipped (%s delivered of %s)" % (i, d, seq))
+    # every pipe that is still open at the end had all its messages delivered after the final drain
+    last = obs[-1]
+    if last and not case[-1].startswith("close"):
+        for i, seq in injected.items():
+            if last["pipes"].get(i, {}).get("st") == "o":
+                miss = [b for b in seq if b not in delivered and b not in lost_ok]
+                if miss and len([l for l in case if l == "recvnb s0"]) >= 10 and all((obs[j] and obs[j]["rv"] == 8) for j in range(len(case) - 3, len(case)) if case[j] == "recvnb s0"):
+                    return (len(case) - 1, "messages %s lost although their connection stayed up" % miss[:4])
+    return None
+
+
 def oracle(case, obs, raw):
     """C06 on the implementation's own observations."""
     proto = case[0].split()[2]
-    if proto.startswith("push"):
-        accepted = []            # bodies accepted by the socket, in acceptance order
-        pending_aio = {}         # aio -> body
-        refused = set()
-        seen_tx = {}             # body -> pipe it was handed to
-        cur_tx = {}              # pipe -> body currently pending
-        tx_order = {}            # pipe -> [bodies]
-        lossy = False            # a pipe was lost with a message in flight / buffer shrunk / socket closed
-        for k, line in enumerate(case):
-            t = line.split()
-            o = obs[k] if k < len(obs) else None
-            if o is None:
-                return (k, "no observation")
-            if t[0] == "sendnb":
-                body = t[3]
-                if o["rv"] == 0:
-                    accepted.append(body)
-                elif o["rv"] in (8, 7, 5):
-                    refused.add(body)
-                else:
-                    return (k, "unexpected result %d of a non-blocking send" % o["rv"])
-            elif t[0] == "send":
-                pending_aio[int(t[2][1:])] = t[4]
-            elif t[0] in ("drop", "close") or (t[0] == "sent" and len(t) > 2) or (t[0] == "setopt"):
-                lossy = True
-            for a, rv, extra in o["done"]:
-                if a in pending_aio:
-                    b = pending_aio.pop(a)
-                    if rv == 0:
-                        accepted.append(b)
-                    else:
-                        refused.add(b)
-                        if extra != "kept":
-                            return (k, "failed send did not leave the message with the caller")
-            for i, p in o["pipes"].items():
-                tx = p.get("tx")
-                b = tx.split("/")[1] if tx else None
-                if p.get("nt", 0) > 1:
-                    return (k, "more than one transport send pending on a pipe")
-                if b != cur_tx.get(i):
-                    if b is not None:
-                        if b in seen_tx:
-                            return (k, "message %s handed to the transport twice (pipes %s and %d)" % (b, seen_tx[b], i))
-                        if b in refused:
-                            return (k, "message %s was refused to the caller but transmitted anyway" % b)
-                        if b not in accepted and b not in pending_aio.values():
-                            return (k, "message %s transmitted but never sent by the application" % b)
-                        seen_tx[b] = i
-                        tx_order.setdefault(i, []).append(b)
-                    cur_tx[i] = b
-        for i, seq in tx_order.items():
-            pos = [accepted.index(b) for b in seq if b in accepted]
-            if pos != sorted(pos):
-                return (len(case) - 1, "pipe %d carries messages out of acceptance order" % i)
-        if not lossy:
-            missing = [b for b in accepted if b not in seen_tx]
-            if missing:
-                return (len(case) - 1, "accepted messages never reached any puller although all connections stayed up: %s" % missing[:4])
-        return None
-    else:
-        injected = {}            # pipe -> [bodies in order]
-        delivered = []           # (body)
-        lost_ok = set()
-        for k, line in enumerate(case):
-            t = line.split()
-            o = obs[k] if k < len(obs) else None
-            if o is None:
-                return (k, "no observation")
-            if t[0] == "inject" and o["rv"] == 0:
-                injected.setdefault(int(t[1][1:]), []).append(t[2])
-            if t[0] in ("drop", "close"):
-                # messages not yet delivered on that pipe may be lost with the connection
-                for i, seq in injected.items():
-                    if t[0] == "close" or i == int(t[1][1:]):
-                        lost_ok.update(seq)
-            got = []
-            if o["got"]:
-                got.append(o["got"].split("/")[1])
-            for a, rv, extra in o["done"]:
-                if rv == 0 and extra:
-                    got.append(extra.split("/")[1])
-            for b in got:
-                if b in delivered:
-                    return (k, "message %s delivered twice" % b)
-                if not any(b in seq for seq in injected.values()):
-                    return (k, "message %s delivered but never sent by a pusher" % b)
-                delivered.append(b)
-        for i, seq in injected.items():
-            pos = [seq.index(b) for b in delivered if b in seq]
-            if pos != sorted(pos):
-                return (len(case) - 1, "messages of connection %d delivered out of order" % i)
-            # no gaps: a delivered message implies all earlier ones of that pipe were delivered
-            d = [b for b in seq if b in delivered]
-            if d and seq[:len(d)] != d:
-                return (len(case) - 1, "connection %d: a message was skipped (%s delivered of %s)" % (i, d, seq))
-        # every pipe that is still open at the end had all its messages delivered after the final drain
-        last = obs[-1]
-        if last and not case[-1].startswith("close"):
-            for i, seq in injected.items():
-                if last["pipes"].get(i, {}).get("st") == "o":
-                    miss = [b for b in seq if b not in delivered and b not in lost_ok]
-                    if miss and len([l for l in case if l == "recvnb s0"]) >= 10 and all((obs[j] and obs[j]["rv"] == 8) for j in range(len(case) - 3, len(case)) if case[j] == "recvnb s0"):
-                        return (len(case) - 1, "messages %s lost although their connection stayed up" % miss[:4])
-        return None
+    return oracle_push(case, obs) if proto.startswith("push") else oracle_pull(case, obs)
 
 
 def run(tier, seed, replay=None):
     rep = Report("C06", tier, seed)
+    if os.environ.get("NNGV_C06_ASSUME_KNOWN"):      # development aid: treat the findings of KNOWN_TEXT as recorded
+        for k, v in KNOWN_TEXT.items():
+            rep.known.setdefault(k, v)
     proof_ok, cb, bdir, why = std_prelude(rep, "C06", "Properties_C06", "c06")
     if bdir is None:
         return rep.finish()
+    cs = consts()
+    del FOUND[:]
     rng = random.Random(seed)
     n = 200 if tier == "quick" else 6000
     if replay:
         cases = [[l.strip() for l in open(replay) if l.strip() and not l.startswith("#")]]
     else:
-        cases = load_corpus("C06") + [gen_push_case(rng) if i % 2 == 0 else gen_pull_case(rng) for i in range(n)]
+        cases = load_corpus("C06") + [list(c) for c in DIRECTED]
+        for i in range(n):
+            cases.append(gen_push_case(rng) if i % 2 == 0 else gen_pull_case(rng))
+            if i % 2 == 0:
+                cases.append(gen_blocked_case(rng))
+            if i % 4 == 1:
+                cases.append(gen_reject_case(rng))
     proto_run(rep, "C06", tier, bdir, cases, oracle, label="PUSH/PULL")
+    missing = [t for t in NEED if t not in cb.get("theorems", [])]
+    if proof_ok and missing:
+        proof_ok, why = False, "theorems missing from Properties_C06: %s" % ", ".join(missing)
+    if FOUND:
+        key, case, k, text = FOUND[0]
+        p = rep.replay_file("known_%s.case" % key, "# %s\n# %s at op %d (%s); %d cases of this run\n" % (KNOWN_TEXT[key], text, k, case[min(k, len(case) - 1)], len(FOUND))
+                            + "\n".join(case) + "\n")
+        if cs["resize_fixed"]:
+            rep.violation(p, "PUSH/PULL: push.c has the repaired push0_set_send_buf_len but a send still overtakes blocked senders after the buffer grew: %s" % text)
+        else:
+            rep.violation(p, "PUSH/PULL: %s (%d cases in this run; the model follows the source: fixed=%s)" % (KNOWN_TEXT[key], len(FOUND), cs["resize_fixed"]), key=key)
+    rep.cov["resize_overtakes_blocked_cases"] = len(FOUND)
+    rep.cov["push_resize_admits_fixed"] = cs["resize_fixed"]
     if not proof_ok and not rep.violations:
         proof_broken_report(rep, cb, "C06 theorems do not check (%s)" % why)
-    rep.cov["rule"] = ("random histories on a PUSH or PULL socket over the deterministic transport: connects (right and wrong peer), blocking/non-blocking sends and receives, "
-                       "transport completions one at a time, peer loss, buffer resizes, cancels, a final drain; same script on the real library and on the extracted model; "
+    rep.cov["rule"] = ("histories on a PUSH or PULL socket over the deterministic transport, same script on the real library and on the extracted model: "
+                       "(a) random: connects (right and wrong peer), blocking/non-blocking sends and receives, transport completions one at a time, peer loss, "
+                       "buffer resizes, cancels, a final drain; (b) 2..5 senders blocked at once with SENDBUF 0/1/2, cancels and aio timeouts of some, pullers and "
+                       "acknowledgements arriving one at a time (per-connection order = submission order, nothing lost); (c) buffered + blocked messages, wrong-protocol "
+                       "peers (refused at pipe start), then a puller (a refused connection takes nothing); (d) the witness schedules of PushSubmit.v; "
                        "non-trivial = some message moves; distinct = distinct scripts")
     return rep.finish()
